@@ -217,6 +217,24 @@ def check_encrypt(prog, an, rep, cn, b, name, f, hidx):
             elif "ecounter" in names:
                 xors.append((i, names.index("ecounter"), flds[names.index("ecounter")]))
         label = "%s:path[%s]" % (cons, ">".join(path[1:]) or "-")
+        # in-place discipline: whatever writes through the output cursor must read the input at the same offset
+        pphis = {}
+        for ph in hphis:
+            if ph["type"].endswith("*"):
+                a0 = C.am.of(["i", ph["id"]])
+                if a0 is not None and a0.root[0] == "arg":
+                    pphis[ph["id"]] = f.params[a0.root[1]]["name"]
+        outs = [pid for pid, nm in pphis.items() if nm.startswith("out")]
+        ins = [pid for pid, nm in pphis.items() if nm.startswith("in")]
+        for ev in events:
+            if ev[0] != "call" or not outs or not ins:
+                continue
+            i = ev[1]
+            ptrs = [C.ptr(o, env) for o in i["ops"] if o[0] in ("i", "a")]
+            o_args = [p for p in ptrs if p is not None and p[0] == ("phi", outs[0])]
+            i_args = [p for p in ptrs if p is not None and p[0] == ("phi", ins[0])]
+            if o_args and not any(ia[1] == o_args[0][1] for ia in i_args):
+                rep.violation("C05.R7", label + ":inplace", f.loc(i), "%s writes through the output cursor without taking the input at the same offset: when output and input are the same buffer the input is destroyed before it is read" % i["callee"][1], cfg=cn)
         iphis = [ph for ph in hphis if not ph["type"].endswith("*")]
         size_t = ("i", iphis[0]["id"]) if len(iphis) == 1 else None
         size_lf = (0, ((size_t, 1),)) if size_t else None
